@@ -200,6 +200,7 @@ func (r *runner) queries(lb types.LoadBalancer, hosts []types.Host, withNil bool
 }
 
 func main() {
+	mode := flag.String("mode", "lb", "lb: configurations x criteria on the balancers; route: request histories on a route (direct and through MOSN)")
 	cases := flag.String("cases", "", "cases file (cfg and crits records)")
 	out := flag.String("trace", "", "trace output")
 	reps := flag.Int("reps", 12, "ChooseHost calls per query")
@@ -211,6 +212,10 @@ func main() {
 	}
 	mlog.InitDefaultLogger("", log.ERROR)
 	log.DefaultLogger.SetLogLevel(log.ERROR)
+	if *mode == "route" {
+		runRoute(*cases, *out, *reps)
+		return
+	}
 	r := &runner{tr: vh.NewTrace(*out), rng: rand.New(rand.NewSource(vh.Seed())), reps: *reps}
 	defer r.tr.Close()
 
